@@ -413,6 +413,10 @@ class Fn:
                 env["$" + nm] = (nm + "0", ty)
         body, rt = self.block(list(node.body), env, 1)
         self.ret_type = rt
+        # implicit parameters in the DECLARATION order of the target (not in the order of first use, which a rewrite may change)
+        order = list(self.tgt.get("getters", {}).values()) + [nm for nm, _ in self.tgt.get("attrs", {}).values()] \
+            + list(self.tgt.get("lens", {}).values()) + [nm for nm, _ in self.tgt.get("opaque", {}).values()]
+        self.extra.sort(key=lambda e: order.index(e[0]))
         allp = params + self.extra + [(nm + "0", LEAN_TYPE[ty]) for nm, ty in self.state]
         sig = " ".join(f"({nm} : {lty})" for nm, lty in allp)
 
